@@ -16,6 +16,7 @@ guarded hooks (pedal.sandbox.timeout._VERIF_SYNC):
                  _stop_mocking before the grader looks at the thread
   lose_race      (gate_* programs) the student code ends just as the timer fires, is held at the ENTRY of
                  _stop_mocking while the grader gives up on it, and continues after run() returned
+  ("e2": "threaded" in the scenario: the next execution is a threaded run as well - it ends by itself)
   dies_at_claim  (gate_* programs; needs the `grader:decided` hook) the student code ends, and its thread is gone,
                  between the grader's decision to give up on it and the terminate() call
 
@@ -79,6 +80,7 @@ def write_obs(obs):
 def main():
     sc = json.loads(sys.argv[1])
     program, position, limit = sc["program"], sc["position"], float(sc.get("limit", 0.25))
+    e2_threaded = sc.get("e2") == "threaded"
     # hand the GIL over quickly: a surviving student loop would otherwise cost the grader thread 5 ms at every
     # blocking call (convoy effect); this changes how fast threads alternate, not what they do
     sys.setswitchinterval(0.0005)
@@ -101,7 +103,9 @@ def main():
     notes = []
 
     def is_student():
-        return type(threading.current_thread()).__name__ == "InterruptableThread"
+        """is this E1's student thread (the one the grader gave up on)?"""
+        cur = threading.current_thread()
+        return type(cur).__name__ == "InterruptableThread" and (st["thread"] is None or cur is st["thread"])
 
     def capped(event, what, cap=CAP):
         if not event.wait(cap):
@@ -113,7 +117,9 @@ def main():
             notes.append("cap expired: " + what)
 
     def sync(point, *info):
-        if not is_student():
+        if st["phase"] != "e1" and not is_student():
+            return                  # the next execution (possibly threaded as well) is left alone
+        if threading.current_thread() is threading.main_thread():
             st["points"].append(point)
         if point == "grader:timer":
             st["thread"] = info[0]
@@ -251,8 +257,9 @@ def main():
     sb.data["_sync"] = _sync
     e2_escaped = None
     st["phase"] = "e2"
+    sb.allowed_time = 20.0      # E2 ends by itself; threaded or not, it must look the same
     try:
-        commands.run("print('ne')\n_sync()\nprint('xt')\nx = 1\n", filename="answer.py")
+        commands.run("print('ne')\n_sync()\nprint('xt')\nx = 1\n", filename="answer.py", threaded=e2_threaded)
     except BaseException as e:
         e2_escaped = type(e).__name__
         sys.stdout = real_stdout
